@@ -227,7 +227,7 @@ func callPaths(r *lib.Run) {
 		if _, err := a.Talk(node.Self(), string(portalwire.History), append([]byte{portalwire.PING}, pb...)); err != nil {
 			return false
 		}
-		deadline := time.Now().Add(2 * time.Second) // the ping is processed asynchronously: wait for the event
+		deadline := time.Now().Add(10 * time.Second) // the ping is processed asynchronously: wait for the event
 		for time.Now().Before(deadline) {
 			if got, ok := node.P.VerifRadiusCacheGet(a.ID()); ok && string(got) == string(rb) {
 				return true
